@@ -56,17 +56,18 @@ def build_tables(gen, pres):
     return mkframe(lvals, pres, prefix='l'), mkframe(rvals, pres, prefix='r')
 
 
-def run_join(meas, L, R, tok, t, op, ae):
+def run_join(meas, L, R, tok, t, op, ae, score=True):
     fn = join_fn(meas)
     if meas == 'EDIT_DISTANCE':
-        out = lib(fn, L, R, 'id', 'id', 's', 's', t, op, False, None, None, 'l_', 'r_', True, 1, False, tok)
+        out = lib(fn, L, R, 'id', 'id', 's', 's', t, op, False, None, None, 'l_', 'r_', score, 1, False, tok)
     elif meas == 'OVERLAP':
-        out = lib(fn, L, R, 'id', 'id', 's', 's', tok, t, op, False, None, None, 'l_', 'r_', True, 1, False)
+        out = lib(fn, L, R, 'id', 'id', 's', 's', tok, t, op, False, None, None, 'l_', 'r_', score, 1, False)
     else:
-        out = lib(fn, L, R, 'id', 'id', 's', 's', tok, t, op, ae, False, None, None, 'l_', 'r_', True, 1, False)
+        out = lib(fn, L, R, 'id', 'id', 's', 's', tok, t, op, ae, False, None, None, 'l_', 'r_', score, 1, False)
     d = {}
     dup = 0
-    for a, b, s in zip(out['l_id'].tolist(), out['r_id'].tolist(), out['_sim_score'].tolist()):
+    scores = out['_sim_score'].tolist() if '_sim_score' in out.columns else [None] * len(out)
+    for a, b, s in zip(out['l_id'].tolist(), out['r_id'].tolist(), scores):
         k = (cell(a), cell(b))
         if k in d:
             dup += 1
@@ -80,6 +81,7 @@ def w_laws(job):
     spec = job.get('tok', ['ws', True])
     L, R = build_tables(job['gen'], pres)
     ths = job['ths']
+    score = job.get('score', True)
     ops = ('<=', '<', '=') if meas == 'EDIT_DISTANCE' else ('>=', '>', '=')
     viol = []
     nviol = calls = cases = nontrivial = 0
@@ -97,8 +99,8 @@ def w_laws(job):
                          'detail': {}})
     def check_laws(res, sweep):
         nonlocal cases, nontrivial
-        # 2. threshold refinement for the non-equality operators
-        for op in ops[:2]:
+        # 2. threshold refinement for the non-equality operators (needs the scores)
+        for op in (ops[:2] if score else ()):
             f = OPS[op]
             for t1, t2 in itertools.combinations(sorted(ths), 2):
                 lax, strict = (t1, t2) if meas != 'EDIT_DISTANCE' else (t2, t1)
@@ -143,7 +145,7 @@ def w_laws(job):
         for t in order:
             for op in ops:
                 # allow_empty=False: empty-empty pairs are threshold independent and excluded by the statement
-                cur[(t, op)], dup = run_join(meas, L, R, tk(), t, op, False)
+                cur[(t, op)], dup = run_join(meas, L, R, tk(), t, op, False, score)
                 calls += 1
                 if dup:
                     report('uniqueness', 't=%r op=%s: %d duplicate key pairs' % (t, op, dup))
@@ -153,8 +155,8 @@ def w_laws(job):
     for t in job.get('swap_ths', ths):
         for op in ops:
             for ae in ((False, True) if meas not in ('EDIT_DISTANCE', 'OVERLAP') else (False,)):
-                a = res[(t, op)] if not ae else run_join(meas, L, R, tk(), t, op, True)[0]
-                b, _ = run_join(meas, R, L, tk(), t, op, ae)
+                a = res[(t, op)] if not ae else run_join(meas, L, R, tk(), t, op, True, score)[0]
+                b, _ = run_join(meas, R, L, tk(), t, op, ae, score)
                 calls += 1 + int(ae)
                 cases += 1
                 sw = {(y, x): s for (x, y), s in b.items()}
@@ -197,6 +199,11 @@ def layers(tier):
                 jobs.append({'gen': {'gen': 'univ', 'K': K}, 'meas': meas, 'ths': sub, 'pres': pres})
         jobs.append({'gen': {'gen': 'univ', 'K': K - 1, 'Kr': K - 3, 'dup': True}, 'meas': meas,
                      'ths': ts[::3], 'tok': ['ws', False], 'pres': pres})
+        # without the score column (transposition and partition on key pairs), rows in descending size order
+        jobs.append({'gen': {'gen': 'univ', 'K': K, 'order': 'rev'}, 'meas': meas, 'ths': ts[::2], 'pres': pres,
+                     'score': False})
+        jobs.append({'gen': {'gen': 'univ', 'K': K + 1, 'Kr': 3, 'order': 'rev'}, 'meas': meas, 'ths': ts[1::3],
+                     'pres': pres})
     for q, padding, rs in ((2, True, False), (3, False, True), (1, False, False)):
         jobs.append({'gen': {'gen': 'struniv', 'alpha': 'ab', 'maxlen': 4 if quick else 5}, 'meas': 'EDIT_DISTANCE',
                      'ths': [0, 1, 2, 3], 'tok': ['qg', q, padding, rs], 'pres': pres})
